@@ -307,6 +307,9 @@ func runC02(c *core.Ctx) {
 		}
 		// ---- Part D: binding probes
 		runC02Bindings(c, s, graphs[0], report)
+		// ---- Part E: the schema grows between two requests (a later load makes C implement Named / join the union): the data holds
+		// C objects behind Named- and AB-typed fields from the start, the first request only touches A and B values behind them
+		runC02Growth(c, report)
 	}
 	c.R.Bound = fmt.Sprintf("A: documents within %d mutations x single faults and all pairs of faults (call logs <= 12); B: all 2^%d assignments x 2 modes; C: 3 probes; D: all 6 argument orders", k, len(nodes)-1)
 	if !completed {
@@ -423,4 +426,68 @@ func runC02Bindings(c *core.Ctx, s *world.Schema, g0 *world.Graph, report func(p
 
 func regField(root *ggql.Root, typeName string, rf []string) error {
 	return root.RegisterField(typeName, rf[0], rf[1], rf[2:]...)
+}
+
+func runC02Growth(c *core.Ctx, report func(part, kind, msg string, attrs map[string]string, wc worldCase)) {
+	sBefore := world.Universe(world.UniverseOpts{NamedImpl: 3, ABMembers: 3})
+	sAfter := world.Universe(world.UniverseOpts{NamedImpl: 7, ABMembers: 7})
+	g0 := retypeGraph(sAfter, 0)
+	gfs := g0.FSView(sAfter)
+	// a first request that reaches a Named value of type A or B (so that whatever the library remembers about Named is filled)
+	first := ""
+	for _, f1 := range []string{"a", "b"} {
+		if n1, _ := g0.Root.F[f1].(*world.Node); n1 != nil {
+			if n2, _ := n1.F["named"].(*world.Node); n2 != nil && n2.Type != "C" {
+				first = "{ " + f1 + " { named { name } } }"
+				break
+			}
+		}
+	}
+	if first == "" {
+		first = "{ a { id } }"
+	}
+	second := world.Q(world.F("nameds", world.F("__typename"), world.F("name"), world.F("nick")), world.F("us", world.F("__typename"), world.In("C", world.F("id"))), world.F("c", world.F("named", world.F("name"))))
+	// (the Resolver and AnyResolver strategies do no abstract dispatch: for them the interface's own fields only)
+	plain := world.Q(world.F("nameds", world.F("name"), world.F("nick")), world.F("c", world.F("named", world.F("name"))))
+	for _, nc := range []namedCfg{
+		{"RS/slice", world.Config{Strat: world.RS, Car: world.CarSlice, Schema: sBefore}},
+		{"AS/slice", world.Config{Strat: world.AS, Car: world.CarSlice, Schema: sBefore}},
+		{"FS/register", world.Config{Strat: world.FS, Bind: world.BindRegister, Schema: sBefore}},
+		{"FS/byname", world.Config{Strat: world.FS, Bind: world.BindByName, Schema: sBefore}},
+	} {
+		for _, warm := range []bool{true, false} {
+			g := g0
+			if nc.Cfg.Strat == world.FS {
+				g = gfs
+			}
+			c.Eval()
+			c.R.Distinct++
+			c.Nontrivial()
+			root, run, err := world.BuildRoot(nc.Cfg, g)
+			if err != nil {
+				panic(core.EngineError{Msg: err.Error()})
+			}
+			if warm {
+				_ = world.Observe(root, run, first, "", nil)
+				run.Log, run.Args = nil, nil
+			}
+			if err := root.ParseString("extend type C implements Named\nextend union AB = C\n"); err != nil {
+				panic(core.EngineError{Msg: "C02 growth: extension refused: " + err.Error()})
+			}
+			doc := second
+			if nc.Cfg.Strat != world.FS {
+				doc = plain
+			}
+			text := doc.Render(world.LOneLine)
+			ex := world.RefExec(sAfter, g, doc, "", nil, nil, world.RefOpts{})
+			o := world.Observe(root, run, text, "", nil)
+			if kd, msg := compareExpect(sAfter, g, ex, o, nc.Cfg.Strat, nc.Cfg.Strat == world.FS); kd != "" {
+				c.Outcome("E-" + kd)
+				report("E-growth", kd, msg, map[string]string{"strategy": nc.Cfg.Strat.String(), "model": "none", "warm": fmt.Sprint(warm)},
+					worldCase{Config: nc.Name, SDL: sBefore.SDL() + "\n# later load:\nextend type C implements Named\nextend union AB = C", Query: first + "   THEN (after the load)   " + text, Expected: map[string]interface{}{"data": ex.Data, "err_paths": ex.ErrPaths}, Observed: o})
+			} else {
+				c.Outcome("E-agree")
+			}
+		}
+	}
 }
